@@ -141,7 +141,7 @@ func (x *Exec) attributeListingDiff(c *Client, lib, mod string, st *Step) ([]str
 			for _, p := range st.P {
 				pa := peerAddrOf(p)
 				for _, e := range extra {
-					if canonIP(pa.IP) == e && (x.w.cfg.denied(c.Idx, pa.IP) || familyOfIP(pa.IP) != a.Family) {
+					if canonIP(pa.IP) == e && (x.w.deniedAt(x.opStart, c.Idx, pa.IP) || familyOfIP(pa.IP) != a.Family) {
 						return []string{"C01"}, "vetoed-or-foreign-family-permission-installed"
 					}
 				}
@@ -160,7 +160,7 @@ func (x *Exec) attributeListingDiff(c *Client, lib, mod string, st *Step) ([]str
 		props := []string{"C08", "C07", "C01", "C02"}
 		if st != nil && st.Op == "ChannelBind" && len(st.P) > 0 {
 			pa := peerAddrOf(st.P[0])
-			if x.w.cfg.denied(c.Idx, pa.IP) || familyOfIP(pa.IP) != a.Family {
+			if x.w.deniedAt(x.opStart, c.Idx, pa.IP) || familyOfIP(pa.IP) != a.Family {
 				props = []string{"C01"}
 			}
 		}
